@@ -89,7 +89,11 @@ def resolve(name, params, d, rng):
       else:
         out[key] = layout(D.spd_matrix(rng, d, cond=20.0))
     elif val == '@randn':
-      out[key] = layout(rng.randn(k, d))
+      if rng.randint(4) == 0:
+        # integer-typed array (full row rank is not required of an init)
+        out[key] = layout(rng.randint(-3, 4, size=(k, d)))
+      else:
+        out[key] = layout(rng.randn(k, d))
     elif val == '@basis':
       nb = out.get('n_basis') or 3 * d
       B = rng.randn(nb, d)
@@ -97,6 +101,10 @@ def resolve(name, params, d, rng):
       if rng.randint(2):
         # a supplied basis need not have unit-norm rows
         B = B * np.exp(rng.uniform(-1.5, 1.5, size=(nb, 1)))
+      if rng.randint(4) == 0:
+        # ... nor a floating point dtype
+        B = rng.randint(-3, 4, size=(nb, d))
+        B[np.all(B == 0, axis=1), 0] = 1
       out[key] = layout(B)
     elif val == 'inf':
       out[key] = np.inf
